@@ -81,7 +81,7 @@ func c15String(r *rand.Rand) (s string, valid bool) {
 	return s, utf8.ValidString(s)
 }
 
-var c15Floats = []float64{0, math.Copysign(0, -1), 1, -1, 0.1, 1e21, 1e20, 999999999999999900000, 1e-7, 1e-6, 0.000001, 123456789.125, math.MaxFloat64, -math.MaxFloat64, math.SmallestNonzeroFloat64, math.MaxFloat32, math.SmallestNonzeroFloat32, 1 << 53, 1<<53 + 2, 3.141592653589793, 2.5e-300, 100, 1e6, 1e-5}
+var c15Floats = []float64{9223372036854775808, -9223372036854775808, 9223372036854774784, 18446744073709551616, 18446744073709549568, 4294967296, 2147483648, -2147483649, 4503599627370496, 1e15, 1e16, 1e17, 1e18, 1e19, 123456789012345680, 0, math.Copysign(0, -1), 1, -1, 0.1, 1e21, 1e20, 999999999999999900000, 1e-7, 1e-6, 0.000001, 123456789.125, math.MaxFloat64, -math.MaxFloat64, math.SmallestNonzeroFloat64, math.MaxFloat32, math.SmallestNonzeroFloat32, 1 << 53, 1<<53 + 2, 3.141592653589793, 2.5e-300, 100, 1e6, 1e-5}
 
 func c15Scalar(r *rand.Rand) *jnode {
 	n := &jnode{nodesN: 1}
@@ -112,7 +112,10 @@ func c15Scalar(r *rand.Rand) *jnode {
 			}
 		}
 		if r.IntN(3) == 0 {
-			n.f = float64(float32(c15Floats[r.IntN(12)]))
+			n.f = float64(float32(c15Floats[r.IntN(len(c15Floats))]))
+			if math.IsInf(n.f, 0) {
+				n.f = 1
+			}
 		}
 	case 6, 7, 8:
 		n.kind = jkString
